@@ -80,7 +80,7 @@ Proof.
     assert (Hlim : hfold 0 ds < cp_limit) by (rewrite Hv; unfold is_scalar, cp_limit in *; lia).
     match goal with Hx : at_bytes ?rr (ds ++ rest) |- _ =>
       destruct (elisp_hex_loop_spec ds fuel rr 0 rest ltac:(cbn in Hf; lia) Hd Hr Hlim Hx) as (r9 & E9 & Ha9 & Hk9) end.
-    rewrite (bind_ok _ _ _ _ _ E9). unfold Scan.as_char. rewrite Hv, Hs. exists r9. unfold ret. repeat split; auto; congruence.
+    rewrite (bind_ok _ _ _ _ _ E9). unfold open_ended_char. rewrite Hv, Hs. exists r9. unfold ret. repeat split; auto; congruence.
 Qed.
 
 Section ElispChar.
